@@ -165,6 +165,7 @@ func runShutdownCase(r *mon.Run, c ShutdownCase) {
 
 	// honest remote syncers
 	var honest []*limitlab.Node
+	var closeHonest []func()
 	for i := 0; i < c.Honest; i++ {
 		blocks := 0
 		if i == 0 {
@@ -187,6 +188,7 @@ func runShutdownCase(r *mon.Run, c ShutdownCase) {
 			}
 		}
 		cleanup = append(cleanup, closeH)
+		closeHonest = append(closeHonest, closeH)
 		cp := bounded(func() {
 			ctx, cancel := context.WithTimeout(context.Background(), settleBound)
 			defer cancel()
@@ -322,8 +324,8 @@ func runShutdownCase(r *mon.Run, c ShutdownCase) {
 
 	time.Sleep(us(c.HoldUs))
 	if c.VictimLast {
-		for i := range honest {
-			cleanup[i]() // closeH of honest node i (idempotent)
+		for _, fn := range closeHonest {
+			fn() // idempotent
 		}
 	}
 	tipAtClose := node.Real.Tip().Height
